@@ -2,3 +2,21 @@
 pub assume_specification [i64::wrapping_rem] (a: i64, b: i64) -> (r: i64)
     requires b != 0,
     ensures r as int == rust_rem(a as int, b as int);
+
+// Further i64 methods that vstd does not specify. /repo does not use them today; they are specified so
+// that a rewrite of a kernel in terms of them is *decided* instead of rejected as an unsupported
+// construct. `requires` = the std method's own panic condition. Verus `%` and `/` on int are Euclidean.
+pub assume_specification [i64::rem_euclid] (a: i64, b: i64) -> (r: i64)
+    requires b != 0, !(a == i64::MIN && b == -1),
+    ensures r as int == (a as int) % (b as int);
+pub assume_specification [i64::div_euclid] (a: i64, b: i64) -> (r: i64)
+    requires b != 0, !(a == i64::MIN && b == -1),
+    ensures r as int == (a as int) / (b as int);
+pub assume_specification [i64::wrapping_div] (a: i64, b: i64) -> (r: i64)
+    requires b != 0,
+    ensures r as int == (if a == i64::MIN && b == -1 { i64::MIN as int } else { rust_div(a as int, b as int) });
+pub assume_specification [i64::abs] (a: i64) -> (r: i64)
+    requires a != i64::MIN,
+    ensures r as int == (if a < 0 { -(a as int) } else { a as int });
+pub assume_specification [i64::signum] (a: i64) -> (r: i64)
+    ensures r as int == (if a < 0 { -1int } else if a == 0 { 0int } else { 1int });
